@@ -38,6 +38,8 @@ re-rooting: `rootAt` with its `setRoot`, `isRooted() && isValid()`, then `propag
 one `switchNodes` per relation above the new root — or `GlobalGraph::orientate()`) and queries
 (`isValid`, `isRooted`, `getBelow*`), each call succeeding or raising (for `rootAt` and
 `orientate`: possibly after part of the relations have been turned round), both caches are sound.
+(`orientate()` resets the flags only when one of its `switchNodes` calls succeeded; when none did the
+tables are as before and the flags are kept: still sound.)
 A `rootAt` whose `propagateDirection_` would not return (outcome `fuel` of the model) is not a step
 of a history: the state is left as it was. -/
 theorem dag_cache_sound (ops : List DOp) : DagCacheSound (D.empty.run ops) :=
